@@ -135,6 +135,15 @@ def build_inputs(spec, n, d, lo):
         inp['press'] = np.zeros(x.shape)
     else:
         inp['Tdown4'] = ex['Tdown4'].copy()
+        if spec.get('offshell'):
+            # matter that does NOT source this geometry (the constraints are then
+            # violated at O(1)): only for requests whose alternative derivations
+            # are pure re-packagings and must agree to round-off for ANY inputs
+            amp = 0.3 * (np.abs(ex['Tdown4']).max() + 1.0)
+            bump = amp * np.sin(np.pi * x + 0.3) * np.cos(np.pi * y) * np.sin(np.pi * z - 0.2)
+            for i in (1, 2, 3):
+                inp['Tdown4'][0, i] += bump * (0.5 + 0.25 * i)
+                inp['Tdown4'][i, 0] += bump * (0.5 + 0.25 * i)
     return inp, ex
 
 
@@ -200,6 +209,30 @@ def helper_args(rel, name):
 
 def do_op(rel, op):
     """Run one request; returns ('ok', value) or ('raise', exception)."""
+    if op[0] == 'keep':
+        # a clean-up that leaves only the named (unfrozen) entries behind
+        for k in [k for k in rel.data if rel.var_importance.get(k, 1.0) != 0 and k not in op[1]]:
+            del rel.data[k]
+            rel.last_accessed.pop(k, None)
+        return 'ok', None
+    if op[0] == 'evict':
+        # what a clean-up does to the entries it picks (which ones it picks is
+        # up to ages, sizes and the user-settable importances): a seeded half of
+        # the unfrozen cached entries goes
+        rng = np.random.default_rng([int(op[1]), 4242])
+        victims = sorted(k for k in rel.data if rel.var_importance.get(k, 1.0) != 0)
+        mode = int(op[1]) % 3
+        big = lambda k: not (isinstance(rel.data[k], np.ndarray) and rel.data[k].ndim == 3)
+        if mode == 1:        # the larger entries go first (strain grows with size)
+            gone = [k for k in victims if big(k) or rng.random() < 0.2]
+        elif mode == 2:      # ... or the small ones (importance overrides)
+            gone = [k for k in victims if not big(k) or rng.random() < 0.2]
+        else:
+            gone = [k for k in victims if rng.random() < 0.5]
+        for k in gone:
+            del rel.data[k]
+            rel.last_accessed.pop(k, None)
+        return 'ok', None
     try:
         with common.Quiet():
             if op[0] == 'key':
